@@ -27,6 +27,42 @@ CHECKS.update({
   text="All forests with <=4/5 nodes x 2 decorations x thousands of predicate-bearing expressions (every axis x tests x 30 predicates, ordered predicate pairs, nested predicates, filter expressions with predicates and continued paths, node-set variables and a user function as path heads); surviving nodes compared by identity with the reference.",
   note="Trusted: reference evaluator refxp. Only which nodes survive is compared here (order is C03).",
   ref="2 C02"),
+ "C03": dict(
+  level="exploration",
+  technique="bounded-exhaustive enumeration of documents x node-set expressions; order/duplicate oracle on the implementation's own result plus reference comparison",
+  text="All forests with <=3/4 nodes x 3 decorations: every 1-2 (thorough 1-3) step path over 13 axes x {node(),*} and attribute/namespace steps after reverse axes from every context node; a 20-30 path universe with all pairwise unions, count() of unions and association shapes from the root. Each returned slice is checked for duplicates, foreign cursors, strict monotonicity, ascending order where required, and set equality with the reference (union = sorted set union).",
+  note="Document order is read from the implementation's own list order (its agreement with Pos() is C10). Trusted: refxp.",
+  ref="2 C03"),
+ "C04": dict(
+  level="exploration",
+  technique="bounded-exhaustive enumeration of strings/doubles/typed values through the real conversion paths against reference conversions",
+  text="number() of every string of length <=4/5 over a 14-symbol alphabet plus boundary words, directly and through element text; string() of 37 boundary doubles judged by the statement's own criterion; 52 conversion contexts x 35 typed values (implicit = explicit); string-value of every node of every forest <=4 nodes x 4 decorations through three APIs; node-set conversions over reverse axes from every context node.",
+  note="Trusted: refxp/value.go. Doubles outside the boundary set and longer strings are not covered.",
+  ref="2 C04"),
+ "C05": dict(
+  level="exploration",
+  technique="exhaustive enumeration of all ordered operand pairs over a value alphabet x 6 operators against XPath 1.0 section 3.4",
+  text="2 booleans, 11 numbers, 12 strings and every node-set of size <=3/4 over 8 elements: all ordered pairs x {=,!=,<,<=,>,>=}, operands as variables and (every 7th pair) as literals/paths.",
+  note="Trusted: refxp.Compare. Values outside the alphabet not covered.",
+  ref="2 C05"),
+ "C06": dict(
+  level="exploration",
+  technique="exhaustive enumeration of all pairs of 40 boundary doubles x arithmetic operators and numeric functions, compared by bit pattern with Go float64",
+  text="All ordered pairs of 40 boundary doubles x {+,-,*,div,mod}, unary minus, floor/ceiling/round of each, as variables and as literals; sum()/count() over all node-sets of size <=3 from a 10-text alphabet. No error or 'xpath query panic' allowed.",
+  note="Open known finding C06-round-negative-tie (pinned by the repository's TestFunctionRound). Sign of zero not compared for round().",
+  ref="2 C06"),
+ "C07": dict(
+  level="exploration",
+  technique="exhaustive enumeration of strings over a Unicode character alphabet through every string function against rune-based reference implementations",
+  text="All strings of length <=2/3 over an 11-character alphabet (ASCII, whitespace variants, precomposed/combining, supplementary plane, U+00A0, U+3000) in all pairs through the binary string functions; substring over 85/341 strings x 17 x 17 numeric arguments; translate over all triples of 21/85 strings; normalize-space over 7-symbol whitespace strings <=4/5; zero-argument forms from 5 context nodes; every result must be valid UTF-8.",
+  note="Trusted: refxp/funcs.go.",
+  ref="2 C07"),
+ "C18": dict(
+  level="exploration",
+  technique="bounded-exhaustive enumeration of documents x starting nodes x relative expressions against the reference, plus path-split composition checked implementation-against-itself",
+  text="All forests <=3/4 nodes x 3 decorations: every node of every kind as Exec starting cursor for ~190 relative expressions (vs. reference at context (n,1,1)); 30 prefixes x 40 suffixes: Exec(root,P/R) against the union of Exec(n,R); P/f() against f(P) for the 7 context-dependent builtins.",
+  note="Unmarshal tag context is covered in C19.",
+  ref="2 C18"),
 })
 
 NOT_YET = {}
